@@ -85,6 +85,8 @@ pub fn normalize_with<H: HashFunction, D: SetDataset, W: io::Write>(
         w.write_all(buf1.as_bytes()).map_err(C14nError::Io)?;
         w.write_all(b".\n").map_err(C14nError::Io)?;
     }
+    // the writer is consumed by this function, so nobody else can flush it and see the error
+    w.flush().map_err(C14nError::Io)?;
     Ok(())
 }
 
